@@ -164,6 +164,28 @@ pub fn judge(ctx: &mut Ctx, c: &DedupCase) -> bool {
     if suffix_collision {
         ctx.count("suffix_collisions", 1);
     }
+    // 6'. the numbering is over SHAPE groups: entries that still share a path afterwards must be one
+    // shape by the oracle's own relation (k shapes give the names old+1..old+k, not fewer)
+    for (path, ids) in reg::families(&r1) {
+        if ids.len() < 2 {
+            continue;
+        }
+        let classes = regeq::classes(&r1, &ids);
+        if classes.len() >= 2 {
+            let tag = if coincidence_below(&ids) {
+                ":coincidence"
+            } else if suffix_collision {
+                ":suffix-collision"
+            } else {
+                ""
+            };
+            ctx.violation(
+                format!("C04:shapes-left-under-one-path{tag}"),
+                format!("after ensure_unique_type_paths {} entries share {} although they fall into {} shape groups {:?}; case {}", ids.len(), path.join("::"), classes.len(), classes.iter().map(|c| c[0]).collect::<Vec<_>>(), c.label),
+                replay(),
+            );
+        }
+    }
     // 3. sufficiency
     let d = SDesc::default();
     let (g, _) = generate_model(&r1, &d);
